@@ -58,6 +58,11 @@ Theorem C06_select_is_filter_and_sort (tb : table) (desc : bool) (cs : list (cop
                if desc then rev qualifying else qualifying)).
 Proof. exact (select_is_filter_and_sort tb desc cs). Qed.
 
+(* a comparison of the key with NULL is never true: such a SELECT returns no row, and answers *)
+Theorem C06_comparison_with_null_selects_nothing (tb : table) (desc : bool) (cs : list (cop * sval)) o :
+  In (o, VNull) cs -> select_model tb desc cs = Some [].
+Proof. exact (select_null_operand tb desc cs o). Qed.
+
 Theorem C06_qualifying_rows (t : tree (cval row)) (cs : list (cop * sval)) k r :
   In (k, r) (filter (goodb cs) (live t)) <->
   (exists v, In (k, v) t /\ row_live v = Some r) /\ forall c, In c cs -> sat k c = true.
@@ -116,3 +121,4 @@ Print Assumptions C06_qualifying_rows.
 Print Assumptions C06_selected_row_is_map_entry.
 Print Assumptions C06_map_entry_is_selected.
 Print Assumptions C06_select_example.
+Print Assumptions C06_comparison_with_null_selects_nothing.
